@@ -37,6 +37,7 @@ FINISH = {"level": "proof", "assumptions": [
     "ids; a follower answers a record at most once (duplicated answers: VERIF_ACK_DUP=1, off in both tiers; what they do is the remark "
     "C11_duplicate_answers_are_counted). Entries that stay in commandAofs / aofLocks after their lock is settled are recorded as "
     "observations (distribution: observation:pending-table-leak:*), not as violations; C11_tables_drain_partial / _violated state what holds",
+    "the journal half of 'logged' is exercised separately (mode `ackflush`, monitors only): the REAL AofFile.WriteLock / Flush / Close with a record file or value file whose write fails; every require-ack record must draw exactly one flush result, `ok` only if every write succeeded",
     "not modelled / not exercised: the follower side (ProcessFollower*), the real network, real flush timing, ReplicationManager."
     "SwitchToFollower's waits (the harness sets slock.state / db.status and calls ReplicationAckDB.SwitchToFollower itself), "
     "LockDB.FlushDB (forced expiry of everything), millisecond timers, update-when-locked, show-when-locked, priorities, E = 0 requests",
